@@ -61,3 +61,31 @@ int yr_rules_define_string_variable(YR_RULES* rules, const char* identifier, con
   }
   return ERROR_INVALID_ARGUMENT;
 }
+
+/* R20.5: dispatch on the external type */
+void set_i(int64_t); void set_f(double); void set_s(char*);
+void produce(YR_EXTERNAL_VARIABLE* e, int k)
+{
+  if (k == 0) e->type = EXTERNAL_VARIABLE_TYPE_INTEGER;
+  if (k == 1) e->type = EXTERNAL_VARIABLE_TYPE_FLOAT;
+  if (k == 2) e->type = EXTERNAL_VARIABLE_TYPE_STRING;
+}
+void to_object_good(YR_EXTERNAL_VARIABLE* external)
+{
+  switch (external->type)
+  {
+  case EXTERNAL_VARIABLE_TYPE_INTEGER: set_i(external->value.i); break;
+  case EXTERNAL_VARIABLE_TYPE_FLOAT: set_f(external->value.f); break;
+  case EXTERNAL_VARIABLE_TYPE_STRING:
+  case EXTERNAL_VARIABLE_TYPE_MALLOC_STRING: set_s(external->value.s); break;
+  }
+}
+void to_object_bad(YR_EXTERNAL_VARIABLE* external)
+{
+  switch (external->type)
+  {
+  case EXTERNAL_VARIABLE_TYPE_INTEGER: set_i(external->value.i); break;
+  case EXTERNAL_VARIABLE_TYPE_FLOAT: set_f(external->value.f); break;
+  case EXTERNAL_VARIABLE_TYPE_STRING: set_s(external->value.s); break;
+  }
+}
